@@ -22,3 +22,56 @@ safe GetByID [C03]
 safe ListByEpoch [C03]
 safe Version [C03]
 @*/
+
+/*@
+module store
+props C20
+use common core
+dialect neovm
+
+// C20: reputation values are stored under r<epoch><peer><n> with a per-(epoch, peer) counter c<epoch><peer>.
+pure sid(e Int, p Bytes) Bytes = i2b(e) ++ p
+pure ckey(id Bytes) Bytes = "c" ++ id
+pure vkey(id Bytes, n Int) Bytes = "r" ++ id ++ i2b(n)
+pure count(s Store, id Bytes) Int = s.has(ckey(id)) ? b2i(s.get(ckey(id))) : 0
+// i2b: minimal little-endian two's-complement encoding of a non-negative epoch (up to 5 bytes), as the VM stores integers
+pure enc(x Int) Bytes = x == 0 ? "" :
+      (x < 128 ? byte(x) :
+      (x < 32768 ? byte(x % 256) ++ byte(x / 256) :
+      (x < 8388608 ? byte(x % 256) ++ byte((x / 256) % 256) ++ byte(x / 65536) :
+      (x < 2147483648 ? byte(x % 256) ++ byte((x / 256) % 256) ++ byte((x / 65536) % 256) ++ byte(x / 16777216) :
+        byte(x % 256) ++ byte((x / 256) % 256) ++ byte((x / 65536) % 256) ++ byte((x / 16777216) % 256) ++ byte(x / 4294967296)))))
+
+func storageID(epoch, peerID) (r)
+  pure
+  ensures r == sid(epoch, peerID) && !isnil(r)
+
+func getReputationKey(prefix, id) (r)
+  pure
+  ensures r == byte(prefix) ++ id && !isnil(r)
+
+// put appends: the counter of (epoch, peer) grows by one and the value is stored under the new counter; nothing else changes
+func Put(epoch, peerID, value)
+  ensures [C20] W(alphabet())
+  ensures [C20] count(store, sid(epoch, peerID)) == old(count(store, sid(epoch, peerID))) + 1
+  ensures [C20] store.has(vkey(sid(epoch, peerID), old(count(store, sid(epoch, peerID))) + 1))
+        && store.get(vkey(sid(epoch, peerID), old(count(store, sid(epoch, peerID))) + 1)) == value
+  ensures [C20] forall k Bytes {store.opt(k)} :: k != ckey(sid(epoch, peerID)) && k != vkey(sid(epoch, peerID), old(count(store, sid(epoch, peerID))) + 1)
+        ==> store.opt(k) == old(store).opt(k)
+  ensures [C20] notifs == old(notifs)
+
+// listByEpoch(e) returns the stored ids with the search prefix c<i2b(e)> in key order ...
+func ListByEpoch(epoch) (r)
+  pure
+  ensures [C20] len(r) == cnt(store, "c" ++ i2b(epoch))
+  ensures [C20] forall j Int {r[j]} :: 0 <= j && j < len(r) ==> r[j] == skey(store, "c" ++ i2b(epoch), j)[1:]
+  loop 0
+    invariant len(result) == $it.pos
+    invariant forall j Int {result[j]} :: 0 <= j && j < $it.pos ==> result[j] == $it.key(j)[1:]
+
+// ... but that prefix is exact only among epochs whose encodings have the same length: the variable-length epoch
+// field lets c<i2b(e)> match ids stored under another epoch (known finding)
+pure encLen(x Int) Int = x == 0 ? 0 : (x < 128 ? 1 : (x < 32768 ? 2 : (x < 8388608 ? 3 : (x < 2147483648 ? 4 : 5))))
+lemma ListByEpochExact [C20] finding F_C20_reputation_epoch_prefix (encLen(e) != encLen(f)) : forall e Int, f Int, p Bytes :: 0 <= e && e < 4294967296 && 0 <= f && f < 4294967296 && len(p) == 33
+        && prefix("c" ++ enc(e), "c" ++ enc(f) ++ p) ==> e == f
+@*/
